@@ -258,6 +258,9 @@ class GatedRun:
             sys.stderr = real_stderr
             sys.stdout = real_stdout
             self._uninstall()
+        if self.error:
+            core.PENDING_RAISES.append({'error': self.error, 'via': 'gated two-thread session', 'load': bool(self.load), 'script': self.script,
+                                        'schedule': ''.join(schedule)[:60], 'lines_written': len(self.lines)})
         return {'lines': list(self.lines), 'schedule': schedule, 'log': list(self.sched.log),
                 'q_consumed': self.q_consumed, 'finished': finished, 'error': self.error,
                 'saves': self.saves, 'stderr': err.getvalue(), 'stdout_noise': out.getvalue()}
